@@ -219,6 +219,54 @@ let apply (si : stepinfo) : string option =
   | "diff" ->
       let y = pool.(int_of_string (List.hd rest)) in
       set { x with g = ref_diff (nat x.n) x.g (need_cv "difference argument" y); cv = None }; Some "ok"
+  | "mapdims" | "rmdims" ->
+      if x.n = 0 then Some "ok"
+      else begin
+        let pf =
+          if si.op = "mapdims" then List.map (fun t -> let j = int_of_string t in if j < 0 then None else Some (nat j)) rest
+          else begin
+            let vs = List.map int_of_string (List.tl rest) in
+            let rec go i k = if i >= x.n then [] else if List.mem i vs then None :: go (i + 1) k else Some (nat k) :: go (i + 1) (k + 1) in
+            go 0 0
+          end in
+        let n' = List.fold_left (fun acc t -> match t with Some j -> max acc (1 + (let rec c = function O -> 0 | S m -> 1 + c m in c j)) | None -> acc) 0 pf in
+        if si.op = "rmdims" && n' = x.n then Some "ok"
+        else (set { n = n'; g = map_dims pf x.g; cv = None }; Some "ok")
+      end
+  | "expand" ->
+      (match rest with
+       | [ var; m ] ->
+           let var = int_of_string var and m = int_of_string m in
+           if m = 0 then Some "ok"
+           else begin
+             let c = need_cv "expand" x in
+             let copies = List.concat (List.init m (fun i -> List.map (rename_cg (nat var) (nat (x.n + i))) c)) in
+             let c' = c @ copies in
+             let n' = x.n + m in
+             set { n = n'; g = (if is_empty_b x.g then [] else get "cgs_to_gens" (cgs_to_gens (nat n') c')); cv = Some c' }; Some "ok"
+           end
+       | _ -> failwith "expand")
+  | "fold" ->
+      (match rest with
+       | dest :: _k :: vs ->
+           let dest = int_of_string dest and vs = List.map int_of_string vs in
+           if vs = [] then Some "ok"
+           else begin
+             let slot i = i - List.length (List.filter (fun u -> u < i) vs) in
+             let pf_for v = List.init x.n (fun i ->
+               if i = v then Some (nat (slot dest))
+               else if i = dest || List.mem i vs then None
+               else Some (nat (slot i))) in
+             let pieces = List.map (fun v -> map_dims (pf_for v) x.g) (dest :: vs) in
+             let g' = List.fold_left join [] pieces in
+             set { n = x.n - List.length vs; g = g'; cv = None }; Some "ok"
+           end
+       | _ -> failwith "fold")
+  | "concat" ->
+      let y = pool.(int_of_string (List.hd rest)) in
+      set { n = x.n + y.n; g = concat (nat x.n) x.g y.g;
+            cv = (match x.cv, y.cv with Some cx, Some cy -> Some (cx @ List.map (shift_cg (nat x.n)) cy) | _ -> None) };
+      Some "ok"
   | "unconstrain" -> let var = int_of_string (List.hd rest) in
       set { x with g = unconstrain (nat var) x.g; cv = None }; Some "ok"
   | "telapse" ->
@@ -337,6 +385,8 @@ let judge_step (si : stepinfo) =
                  "arg_cu", (if arg >= 0 then flag_of si.pre arg "CU" else "-");
                  "arg_gu", (if arg >= 0 then flag_of si.pre arg "GU" else "-");
                  "div_ne1", bool_s last_div.(o) ] in
+  bump (Printf.sprintf "opflags:%s:EM%s.CU%s.CM%s.GU%s.GM%s" si.op (flag_of si.pre o "EM") (flag_of si.pre o "CU")
+          (flag_of si.pre o "CM") (flag_of si.pre o "GU") (flag_of si.pre o "GM"));
   bump (Printf.sprintf "flags:EM%s.CU%s.CM%s.GU%s.GM%s" (flag_of si.pre o "EM") (flag_of si.pre o "CU")
           (flag_of si.pre o "CM") (flag_of si.pre o "GU") (flag_of si.pre o "GM"));
   let before = Array.copy pool in
@@ -388,6 +438,12 @@ let judge_step (si : stepinfo) =
                   incr checks;
                   let g = List.map gen_of_toks (items (toks body)) in
                   if tag = "G" then last_div.(oo) <- List.exists gen_div_ne1 g;
+                  (match List.find_opt (function GLine v | GParam (v, _) -> List.for_all z_is_zero v | GPoint _ -> false) g with
+                   | Some bad when r.n > 0 ->
+                       fail "state" (common @ [ "desc", tag; "why", (match bad with GLine _ -> "zero-line-reported" | _ -> "zero-parameter-reported");
+                                                "obj_is_target", bool_s (oo = o); "touched", bool_s touched ])
+                   | _ -> ());
+                  if not !failed then
                   if not (check_gens r g) then
                     fail "state" (common @ [ "desc", tag; "obj_is_target", bool_s (oo = o); "touched", bool_s touched;
                                              "ref_empty", bool_s (is_empty_b r.g); "reported_rows", string_of_int (List.length g) ])
